@@ -163,7 +163,17 @@ fn step(env: &Env, line: &str) -> String {
             };
             let mut rep =
                 fastrace_jaeger::JaegerReporter::new(env.udp.local_addr().unwrap(), svc).unwrap();
-            rep.report(recs);
+            // C20: the call terminates — run it under a deadline
+            let (done_tx, done_rx) = mpsc::channel::<bool>();
+            std::thread::spawn(move || {
+                let r = catch_unwind(AssertUnwindSafe(move || rep.report(recs)));
+                let _ = done_tx.send(r.is_ok());
+            });
+            match done_rx.recv_timeout(Duration::from_secs(10)) {
+                Ok(true) => {}
+                Ok(false) => return "panic".into(),
+                Err(_) => return "hang report() did not return within 10 s".into(),
+            }
             let mut out = String::from("dg");
             let mut buf = vec![0u8; 70000];
             loop {
